@@ -2,8 +2,8 @@
    A system is a state type with a total function [step : st -> tid -> st]: the thread with
    index [tid] performs its next instruction (a blocked or finished thread, or an index that
    names no thread, leaves the state unchanged).  A SCHEDULE is an arbitrary list of thread
-   indices; [run] folds [step] over it.  Every theorem of the form "for every schedule" is an
-   invariant carried through [run_invariant].  Observable history lives in one global log inside
+   indices; [srun] folds [step] over it.  Every theorem of the form "for every schedule" is an
+   invariant carried through [srun_invariant].  Observable history lives in one global log inside
    the state (newest first), never in per-thread lists. *)
 From Coq Require Import List Arith Lia Bool.
 Import ListNotations.
@@ -50,23 +50,23 @@ Qed.
 Section LTS.
   Context {S : Type} (step : S -> nat -> S).
 
-  Definition run (s : S) (sched : list nat) : S := fold_left step sched s.
+  Definition srun (s : S) (sched : list nat) : S := fold_left step sched s.
 
-  Lemma run_nil s : run s [] = s.
+  Lemma srun_nil s : srun s [] = s.
   Proof. reflexivity. Qed.
 
-  Lemma run_cons s i sched : run s (i :: sched) = run (step s i) sched.
+  Lemma srun_cons s i sched : srun s (i :: sched) = srun (step s i) sched.
   Proof. reflexivity. Qed.
 
-  Lemma run_app s a b : run s (a ++ b) = run (run s a) b.
-  Proof. unfold run. apply fold_left_app. Qed.
+  Lemma srun_app s a b : srun s (a ++ b) = srun (srun s a) b.
+  Proof. unfold srun. apply fold_left_app. Qed.
 
-  Lemma run_snoc s a i : run s (a ++ [i]) = step (run s a) i.
-  Proof. rewrite run_app. reflexivity. Qed.
+  Lemma srun_snoc s a i : srun s (a ++ [i]) = step (srun s a) i.
+  Proof. rewrite srun_app. reflexivity. Qed.
 
   (* the one induction over schedules *)
-  Lemma run_invariant (Inv : S -> Prop) :
-    (forall s i, Inv s -> Inv (step s i)) -> forall sched s, Inv s -> Inv (run s sched).
+  Lemma srun_invariant (Inv : S -> Prop) :
+    (forall s i, Inv s -> Inv (step s i)) -> forall sched s, Inv s -> Inv (srun s sched).
   Proof.
     intros Hstep sched. induction sched as [|i sched IH]; intros s H; cbn; [exact H|].
     apply IH. now apply Hstep.
